@@ -1231,6 +1231,8 @@ func runC20(res *hx.Result, rng *hx.Rng, tier string, outdir string) {
 		"(class change, narrowing, sign change, missing/extra/ambiguous field) for the rest; the destination is fresh, or re-used: left by an earlier conversion " +
 		"into the same variable or filled with an arbitrary value (stale elements behind slice lengths included), with later sources biased to empty/shorter containers; " +
 		"plus struct types declared in Go source that are different and print the same reflect String(), converted one after the other in this process; " +
+		"plus sources whose parts share storage (types holding one slice or map type at several places: rows, fields, map elements; a slice laid out as the same piece, " +
+		"a prefix, a longer piece or a window of the array of an earlier one, a map as the very map met earlier), into fresh and re-used destinations; " +
 		"non-trivial = the source type contains a map or a container nested in a container; distinct by sha256 of (types, canonical value, previous content)"
 	// hx.NewRng(seed) and hx.NewRng(seed+1) produce the same stream shifted by one draw (the seed is
 	// multiplied by the generator's own increment); re-seeding from the first output decorrelates them
